@@ -40,6 +40,16 @@ def handle : String → Handler
       let (g, rest) ← parseGenotype nHet rest
       if rest ≠ [] then none else some (showGenotype (reinsert fixed g))
     | _ => none
+  | "sweep.restrict", toks => do
+    -- `<n_sites> <pattern: x | allele>… <ploidy> <alleles…>` (full-length rows)
+    match toks with
+    | n :: rest =>
+      let n ← parseNat? n
+      let (pat, rest) ← takeN n rest
+      let fixed ← allSome (pat.map (fun t => if t = "x" then some none else (parseNat? t).map some))
+      let (g, rest) ← parseGenotype n rest
+      if rest ≠ [] then none else some (showGenotype (restrict fixed g))
+    | _ => none
   | _, _ => none
 
 end Driver.C15
